@@ -58,6 +58,7 @@ static int cr_reading (void)
 
 /* scripted access handler: take pattern (bytes taken per call, indexed by the call number within the request);
    the final call (no upload data, not the first call) queues an empty reply */
+static int cr_fill = -1;   /* byte written behind the fill level before every idle call (-1: leave the stale bytes) */
 static size_t cr_pat[64]; static size_t cr_npat; static size_t cr_calls; static int cr_marker; static int cr_cookie_stop;
 static enum MHD_Result cr_handler (void *cls, struct MHD_Connection *c, const char *url, const char *method, const char *version,
                                    const char *upload_data, size_t *upload_data_size, void **con_cls)
@@ -84,6 +85,11 @@ static enum MHD_Result cr_handler (void *cls, struct MHD_Connection *c, const ch
    MHD_connection_update_event_loop_info */
 static void cr_idle (void)
 {
+  /* what lies behind read_buffer_offset has not been received: nothing the parsers decide may depend on it.
+     The script runs every case with different fill bytes there and the outcomes must be the same. */
+  if (cr_fill >= 0 && NULL != rcon.pool && NULL != rcon.read_buffer && rcon.read_buffer_size > rcon.read_buffer_offset
+      && MHD_CONNECTION_CLOSED != rcon.state)
+    memset (rcon.read_buffer + rcon.read_buffer_offset, cr_fill, rcon.read_buffer_size - rcon.read_buffer_offset);
   rcon.in_idle = true;   /* as MHD_connection_handle_idle does (MHD_queue_response must not re-enter it) */
   while (! cr_cookie_stop)
   {
@@ -235,6 +241,14 @@ int main (void)
       memset (((struct MemoryPoolView *) rcon.pool)->memory, 0, ((struct MemoryPoolView *) rcon.pool)->size);
       MHD_connection_set_initial_state_ (&rcon);
       printf ("ok "); cr_show ();
+      continue;
+    }
+    if (!strcmp (op, "crfill") && l.n == 2)
+    { /* crfill <byte 0..255 | off> */
+      if (!strcmp (l.w[1], "off")) cr_fill = -1;
+      else if (lp_u64 (l.w[1], &a) && a < 256) cr_fill = (int) a;
+      else { puts ("bad-op"); continue; }
+      puts ("ok");
       continue;
     }
     if (!strcmp (op, "crfeed") && l.n == 2)
